@@ -61,6 +61,25 @@ def oracle(case, res, extra):
         return
     rng = random.Random(case.seed * 29 + 13)
     q = case.qref
+    # hypotheses of C09_children_order_irrelevant, checked on every routine the implementation compiles: every port is the target of
+    # at most one connection, children have distinct names, and the references `child.resource` of the compiled children are unambiguous
+    if case.status == "ok":
+        from ..real import walk
+
+        def targets_distinct(n):
+            ts = [c["target"] for c in n.get("connections", [])]
+            kids = [k["name"] for k in n.get("children", [])]
+            return len(ts) == len(set(ts)) and len(kids) == len(set(kids)) and all(targets_distinct(k) for k in n.get("children", []))
+        refs_ok = True
+        for _, node in walk(case.result.routine):
+            refs = [f"{cn}.{rn}" for cn, cc in node.children.items() for rn in cc.resources]
+            refs_ok = refs_ok and len(refs) == len(set(refs))
+        res.stats["model_vs_impl_compared"] += 1
+        if targets_distinct(q) and refs_ok:
+            res.stats["order_theorem_hypotheses_hold"] += 1
+        else:
+            res.disagreement("hypotheses of C09_children_order_irrelevant on a routine the implementation compiles", {"qref": q},
+                             {"targets_distinct_and_names_distinct": targets_distinct(q), "references_unambiguous": refs_ok}, "all hold")
     nkids = len(q.get("children", []))
     perms = [None, None]
     if nkids >= 2 and (extra or {}).get("exhaustive_children") and nkids <= 4:
